@@ -69,6 +69,7 @@ def instances(tier):
         out.append({"kind": "api_held_fault", "gen": g})
         out.append({"kind": "inflight_fault", "gen": g, "n": 2})
         out.append({"kind": "inflight_fault", "gen": g, "n": 3})
+        out.append({"kind": "inflight_fault", "gen": g, "n": 3, "counter": 254})      # the packet ids of the three wrap around
     out.append({"kind": "peer_reset", "gen": 4, "retries": 1})
     out.append({"kind": "peer_reset", "gen": 5, "retries": 0})
     return out
@@ -498,6 +499,8 @@ def _inflight_fault(ctx, p):
     n = p["n"]
     t_break = ctx.real("t_break", 1, 2)
     with Rig(ctx, g) as rig:
+        if p.get("counter"):
+            g.reset_packet_counter(p["counter"])
         rig.net.on_connect = lambda net, k: ("accept", 0 if k == 0 else 0.5)
         rig.net.on_drain = lambda conn, k: (2.0 if conn.index == 0 else None)      # every drain() on the first connection is held up
 
